@@ -64,7 +64,7 @@ func (rm *ReservationManager) CanReserve(hostname string, offering *cloudprovide
 		// Note: this panic should never occur, and would indicate a serious bug in the scheduling code.
 		panic(fmt.Sprintf("attempted to reserve non-existent offering with reservation id %q", offering.ReservationID()))
 	}
-	if capacity == 0 {
+	if capacity < 0 {
 		return false
 	}
 	return true
@@ -84,6 +84,7 @@ func (rm *ReservationManager) Reserve(hostname string, offerings ...*cloudprovid
 		if !ok {
 			rm.reservations[hostname] = sets.New[string]()
 		}
+		rm.reservations[hostname].Insert(of.ReservationID())
 	}
 }
 
